@@ -1,12 +1,98 @@
-"""C11 (ILP part) — a placed child has all co-decided parents placed and starts after them."""
+"""C11 (ILP part) — a placed child has all co-decided parents placed and starts after them; a parent that is already
+SCHEDULED and not re-decided counts with its expected finish (judged from the world description)."""
+import core
 from props import c10_ilp as common
+from props.c10_ilp import g_instance, g_plan, g_asg, HEADER
 
 TRUSTED = common.TRUSTED
 
 
+def undecided_scheduled(w, r):
+    """SCHEDULED tasks of the WORLD that the planner neither was offered nor treated as previously placed:
+    [task, [planned start, worker, strategy]]"""
+    dec = set(r.get("order", []))
+    return [[t["id"], [t["prev"][2], t["prev"][0], t["prev"][1]]] for t in w["tasks"] if t["state"] == "S" and t["id"] not in dec]
+
+
+def world_plan(w, r, plan):
+    """returned decisions for the decided tasks, and the standing placement of every SCHEDULED task that was not decided"""
+    got = dict((t, d) for t, d in plan)
+    out = []
+    for tid in r["order"]:
+        if r["state"][str(tid)]["state"] != "X" and tid in got:
+            out.append([tid, got[tid]])
+    return out + undecided_scheduled(w, r)
+
+
+def py_c11_ok(w, r, plan):
+    """Python form of c11_check over the world: a placed child starts at or after the end of every parent that is placed in
+    the plan (returned or standing) or running; a parent that is decided but unplaced blocks it"""
+    tds = {t["id"]: t for t in w["tasks"]}
+    got = dict((t, d) for t, d in plan)
+    known = set(r["order"]) | set(got)
+
+    def end_of(q):
+        st = r["state"][str(q)]["state"]
+        if st == "X":
+            return w["now"] + r["state"][str(q)]["remaining"]
+        d = got.get(q)
+        if not d:
+            return None
+        return d[0] + tds[q]["strats"][d[2]][0]
+    for g in w["graphs"]:
+        for p_, c in g["edges"]:
+            if c in got and got[c] and r["state"][str(c)]["state"] != "X" and p_ in known:
+                e = end_of(p_)
+                if e is None or e > got[c][0]:
+                    return False
+    return True
+
+
+def world_monitor(ctx, worlds, results, stream="M-c11w"):
+    cases, info = [], []
+    for i, (w, r) in enumerate(zip(worlds, results)):
+        if "plan" not in r or not r.get("order"):
+            continue
+        extra = undecided_scheduled(w, r)
+        if not extra:
+            continue
+        pl = world_plan(w, r, r["plan"])
+        cases.append("(%s, %s)" % (g_instance(w, r, extra=[t for t, _ in extra]), g_plan(pl)))
+        info.append((i, pl))
+    try:
+        bad = ctx.monitor_stream(stream, HEADER, "instance * plan", "(fun p => c11_check (fst p) (snd p))", cases, shard=100)
+    except core.ModelEvalError as e:
+        ctx.broken.append({"kind": "monitor", "name": stream, "detail": str(e)[-800:]})
+        bad = [j for j, (i, pl) in enumerate(info) if not py_c11_ok(worlds[i], results[i], pl)]
+    for b in bad[:3]:
+        i, pl = info[b]
+        ctx.violation("c11w%d" % i, {"stream": stream, "world": worlds[i], "returned_placements": results[i]["plan"],
+                                     "with_standing_placements": pl, "fed_to_the_model": results[i].get("seen_order"),
+                                     "what": "a child is placed before the expected finish (planned start + chosen runtime) of a parent that is "
+                                             "SCHEDULED and was not re-decided (C11: predecessors already running or scheduled)"})
+    pts = [(i, tag, vals) for i, tag, vals in common.monitor_points(worlds, results) if undecided_scheduled(worlds[i], results[i])]
+    pc = []
+    for i, tag, vals in pts:
+        extra = undecided_scheduled(worlds[i], results[i])
+        pc.append("(%s, %s, asg_of %s)" % (g_instance(worlds[i], results[i], extra=[t for t, _ in extra]), g_plan(extra), g_asg(vals)))
+    try:
+        bad = ctx.monitor_stream(stream + "p", HEADER, "instance * plan * assignment",
+                                 "(fun q => c11_check (fst (fst q)) (overlay (snd (fst q)) (readback (fst (fst q)) (snd q))))", pc, shard=80)
+        for b in bad[:3]:
+            i, tag, vals = pts[b]
+            ctx.violation("c11wp%d" % b, {"stream": stream + "p", "world": worlds[i], "point": tag, "assignment": vals,
+                                          "standing_placements": undecided_scheduled(worlds[i], results[i]),
+                                          "what": "a feasible point of the implementation's ILP starts a child before the expected finish of a "
+                                                  "parent that is SCHEDULED and has no variables in the model (C11)"})
+    except core.ModelEvalError as e:
+        ctx.broken.append({"kind": "monitor", "name": stream + "p", "detail": str(e)[-800:]})
+    ctx.cov["input_distribution"]["worlds_with_undecided_scheduled_tasks"] = len(info)
+
+
 def run(ctx):
     # whole graphs offered together (release_taskgraphs / lookahead): co-decided parents and children
-    built, worlds, results = common.common_prelude(ctx, ctx.pid.split("_")[0] + "_ilp", 80, 1200, profile="graph")
+    built, worlds, results = common.common_prelude(ctx, ctx.pid.split("_")[0] + "_ilp", 70, 1200, profile="graph", extra_dispatch=12)
+    world_monitor(ctx, worlds, results)
     common.stream_csys(ctx, worlds, results)
     common.stream_plan(ctx, worlds, results)
     common.run_sat_monitor(ctx, worlds, results)
@@ -15,3 +101,5 @@ def run(ctx):
                            "unplaced, or starts it before the parent's start + chosen runtime (running parent: before its "
                            "expected finish) (C11)")
     ctx.cov["input_distribution"]["monitored_points"] = n
+    ctx.cov["input_distribution"]["dispatch_worlds"] = sum(1 for w in worlds if w["cfg"]["retract"] and any(
+        t["state"] == "S" and t["prev"][2] <= w["now"] for t in w["tasks"]))
